@@ -17,6 +17,9 @@
 #ifndef VP_PAD
 #define VP_PAD 0      // number of isolated padding vertices placed BEFORE the active ones (sparse form only): large vertex ids => simplex indices beyond 32 bits
 #endif
+#ifndef VP_PADGAP
+#define VP_PADGAP 1   // active point i is vertex VP_PAD + i*VP_PADGAP (isolated vertices in between): the active labels differ in their high bits
+#endif
 enum { N = VP_N, NS = 1 << VP_N, P = VP_P, NV = VP_DMAX + 2 };   // values 1..VP_DMAX, index VP_DMAX+1 = +inf
 static int pcnt(int m) { return __builtin_popcount(m); }
 static int inv_mod(int a) { a %= P; for (int x = 1; x < P; x++) if (a * x % P == 1) return x; return 0; }
@@ -40,11 +43,23 @@ static void flag_persistence(const int w[N][N], int maxd, Diagram& D) {
 typedef Gudhi::ripser::TParams2<float> DP;
 extern "C" void harness() {
   float d[N][N]; int di[N][N];
-  for (int i = 0; i < N; i++) for (int j = 0; j < i; j++) { float x = (float)vp_double_grid("d", 1.0, 1.0, VP_DMAX); int xi = 0; for (int q = 1; q <= VP_DMAX; q++) if (x == (float)q) xi = q; d[i][j] = d[j][i] = x; di[i][j] = di[j][i] = xi; }
+  for (int i = 0; i < N; i++) for (int j = 0; j < i; j++) { 
+#ifdef VP_FORKD   /* one path per concrete dissimilarity matrix (enumerated by the solver) */
+    float x = (float)vp_double_grid_forked("d", 1.0, 1.0, VP_DMAX);
+#else
+    float x = (float)vp_double_grid("d", 1.0, 1.0, VP_DMAX);
+#endif
+    int xi = 0; for (int q = 1; q <= VP_DMAX; q++) if (x == (float)q) xi = q; d[i][j] = d[j][i] = x; di[i][j] = di[j][i] = xi; }
   for (int i = 0; i < N; i++) { d[i][i] = 0; di[i][i] = 0; }
   const float inf = std::numeric_limits<float>::infinity();
 #if VP_PAD
-  int ti = vp_fork_int(vp_int("thr", 1, VP_DMAX + 1)); int dim_max = vp_fork_int(vp_int("dim_max", 1, N - 2)); int form = 3; int enc = vp_fork_int(vp_int("enc", 0, 3));
+  int ti = vp_fork_int(vp_int("thr", 1, VP_DMAX + 1)); 
+#ifdef VP_PADDIM
+  int dim_max = VP_PADDIM;
+#else
+  int dim_max = vp_fork_int(vp_int("dim_max", 1, N - 2));
+#endif
+  int form = 3; int enc = vp_fork_int(vp_int("enc", 0, 3));
 #elif defined(VP_CROSS)
   int ti = vp_fork_int(vp_int("thr", 0, VP_DMAX + 1)); int dim_max = vp_fork_int(vp_int("dim_max", 0, N - 2)); int form = vp_fork_int(vp_int("form", 0, 3)); int enc = vp_fork_int(vp_int("enc", 0, 3));
 #else
@@ -70,13 +85,13 @@ extern "C" void harness() {
   if (form == 0) { std::vector<float> v; for (int i = 0; i < N; i++) for (int j = 0; j < i; j++) v.push_back(d[i][j]); Compressed_distance_matrix<DP, LOWER_TRIANGULAR> m(std::move(v)); Full_distance_matrix<DP> f(m); run(std::move(f)); vp_reach("full"); }
   else if (form == 1) { std::vector<float> v; for (int i = 0; i < N; i++) for (int j = 0; j < i; j++) v.push_back(d[i][j]); run(Compressed_distance_matrix<DP, LOWER_TRIANGULAR>(std::move(v))); vp_reach("lower"); }
   else if (form == 2) { std::vector<float> v; for (int i = 0; i < N; i++) for (int j = i + 1; j < N; j++) v.push_back(d[i][j]); run(Compressed_distance_matrix<DP, UPPER_TRIANGULAR>(std::move(v))); vp_reach("upper"); }
-  else { std::vector<std::vector<Sparse_distance_matrix<DP>::vertex_diameter_t> > nb(N + VP_PAD); std::size_t ne = 0; for (int i = 0; i < N; i++) for (int j = 0; j < N; j++) if (i != j && d[i][j] <= thr) { nb[VP_PAD + i].emplace_back(VP_PAD + j, d[i][j]); ne++; }
+  else { std::vector<std::vector<Sparse_distance_matrix<DP>::vertex_diameter_t> > nb(VP_PAD ? VP_PAD + (N - 1) * VP_PADGAP + 1 : N); std::size_t ne = 0; for (int i = 0; i < N; i++) for (int j = 0; j < N; j++) if (i != j && d[i][j] <= thr) { nb[VP_PAD + i * VP_PADGAP].emplace_back(VP_PAD + j * VP_PADGAP, d[i][j]); ne++; }
     run(Sparse_distance_matrix<DP>(std::move(nb), ne)); vp_reach("sparse"); }
   vp_assert(!bad, "every streamed interval has grid endpoints and a valid dimension");
   // ---- oracle: flag filtration truncated at the threshold (no threshold: the full filtration; beyond the enclosing radius the complex is a cone)
   int w[N][N]; for (int i = 0; i < N; i++) for (int j = 0; j < N; j++) w[i][j] = (i != j && (float)di[i][j] <= thr) ? di[i][j] : -1;
   Diagram O; flag_persistence(w, dim_max, O);
-  O.cnt[0][0][NV - 1] += VP_PAD;   // every isolated padding vertex is an essential component
+  O.cnt[0][0][NV - 1] += VP_PAD ? VP_PAD + (N - 1) * VP_PADGAP + 1 - N : 0;   // every isolated padding vertex is an essential component
   for (int a = 0; a <= dim_max; a++) for (int b = 0; b < NV; b++) for (int e = 0; e < NV; e++) vp_assert(G.cnt[a][b][e] == O.cnt[a][b][e], "Ripser intervals = barcode of the Rips flag filtration truncated at the threshold");
   for (int a = dim_max + 1; a < N; a++) for (int b = 0; b < NV; b++) for (int e = 0; e < NV; e++) vp_assert(G.cnt[a][b][e] == 0, "nothing is reported above dim_max");
   vp_reach("end");
